@@ -4,3 +4,5 @@ PAIRS = [A[k] for k in ("id_suitable", "memid_suitable", "alloc_aligned", "try_a
 import seg_common
 S = seg_common.pairs()
 PAIRS += [S[k] for k in ("reclaim_all", "abandoned_collect", "try_reclaim", "try_reclaim_k5", "attempt_reclaim")]
+import heap_collect_common as _hc
+PAIRS += [_hc.pair()]      # mi_heap_collect_ex: steps, force flags and order of a collection
